@@ -703,6 +703,37 @@ theorem C19_exporter_balance_memory {s : State} (h : Reachable s) (hp : s.phase 
   exact ⟨by omega, (inv.late hm hex).2⟩
 
 open OtelVerif.C03 in
+/-- the statement's exporter clause for a MEMORY queue, literally: nothing may be subtracted (only a persistent queue keeps items):
+sent + send-failed = accepted (= given − enqueue-failed) -/
+def C19_exporter_balance_memory_full : Prop :=
+  ∀ s : State, Reachable s → s.phase = 5 → s.cfg.persistent = false → s.cons ≠ [] → sentOf s + failedOf s = s.accepted.length
+
+open OtelVerif.C03 in
+/-- **Memory-queue balance, literally** (proved for the repaired code: `memory_queue.add` refuses once the queue is stopped, commit
+"fix: exporterhelper memory queue refuses elements offered after Shutdown"; the refusal is an `Offer` error, hence counted
+enqueue-failed): when shutdown has returned the queue is empty and every accepted item was counted exactly once as sent or
+send-failed.  Before the fix a request accepted after the stop was dropped uncounted (finding
+`C19/exporter/accepted-after-shutdown-dropped-uncounted`, fixed). -/
+theorem C19_exporter_balance_memory_full_holds : C19_exporter_balance_memory_full := by
+  intro s h hp hm hn
+  obtain ⟨hall, _⟩ := C03_quiet h hp
+  have hex : ∃ c ∈ s.cons, c = .exited := by
+    cases hc : s.cons with
+    | nil => exact absurd hc hn
+    | cons c cs => exact ⟨c, by simp, hall c (by simp [hc])⟩
+  have hq := memEmpty_reachable h hm hex
+  have := C19_exporter_once h hp
+  simp [hq, queueItems] at this; exact this
+
+open OtelVerif.C03 in
+/-- the literal clause holds when nothing is offered to the memory queue after the shutdown request was made (every request in
+the queue at the return is such a late one, `C19_exporter_balance_memory`) -/
+theorem C19_exporter_balance_memory_no_late {s : State} (h : Reachable s) (hp : s.phase = 5) (hm : s.cfg.persistent = false)
+    (hn : s.cons ≠ []) (hq : s.queue = []) : sentOf s + failedOf s = s.accepted.length := by
+  have := (C19_exporter_balance_memory h hp hm hn).1
+  simp [hq, queueItems] at this; exact this
+
+open OtelVerif.C03 in
 /-- the statement's exporter clause for a persistent queue: sent + send-failed = given − enqueue-failed − stored -/
 def C19_exporter_balance_full : Prop :=
   ∀ s : State, Reachable s → s.phase = 5 → s.cfg.persistent = true → sentOf s + failedOf s + storedOf s = s.accepted.length
@@ -869,5 +900,55 @@ theorem C19_replayed_gauge (rc : RCfg) (t : List TEv)
           (fun r => !reqDone (goUntilShutreq rc { s := init rc.cfg rc.nCons rc.workers rc.timer } t).s.flights r)).map
         (reqSize (goUntilShutreq rc { s := init rc.cfg rc.nCons rc.workers rc.timer } t).s.cfg)).sum :=
   C19_gauge_lts (C03_replay_prefix_reachable rc t) hm hu hne
+
+/-! ### the clause as written: three counters against what the exporter was given -/
+
+open OtelVerif.C03 in
+/-- **given = accepted + refused**, in every reachable state of the exporter with its `obsQueue` front -/
+theorem C19_exporter_given {x : XState} (h : XReachable x) : x.given = x.s.accepted.length + x.refused :=
+  (xreachable_inv h).2
+
+open OtelVerif.C03 in
+/-- **Three-counter balance, exact law of the code** (every schedule, refusal pattern, configuration):
+sent + send-failed + enqueue-failed + (still queued) = given + (items of `wait_for_result` requests whose export failed).
+`C19_exporter_three_counter_partial` and the `_full_fails` theorems read off when the statement's clause holds. -/
+theorem C19_exporter_three_counter {x : XState} (h : XReachable x) (hp : x.s.phase = 5) :
+    sentOf x.s + failedOf x.s + enqFailedOf x + (queueItems x.s.queue).length = x.given + enqFailedWfrOf x.s := by
+  obtain ⟨hr, hg⟩ := xreachable_inv h
+  have := C19_exporter_once hr hp
+  simp only [enqFailedOf]; omega
+
+open OtelVerif.C03 in
+/-- **The clause as written** (PARTIAL: the three recorded deviations excluded by hypothesis): without `wait_for_result` errors
+(`enqFailedWfrOf = 0`), with nothing left in the queue that is not stored (memory queue: no request accepted after the stop;
+persistent queue: `stored` = queue remainder, no kept flight):  sent + send-failed + enqueue-failed = given − stored. -/
+theorem C19_exporter_three_counter_partial {x : XState} (h : XReachable x) (hp : x.s.phase = 5)
+    (hw : enqFailedWfrOf x.s = 0) (hk : keptOf x.s = 0)
+    (hq : x.s.cfg.persistent = false → x.s.queue = []) :
+    sentOf x.s + failedOf x.s + enqFailedOf x =
+      x.given - (if x.s.cfg.persistent then storedOf x.s else 0) := by
+  have h3 := C19_exporter_three_counter h hp
+  cases hpq : x.s.cfg.persistent with
+  | true => simp only [storedOf, hk, if_true]; omega
+  | false =>
+    have := hq hpq
+    simp [this, queueItems] at h3
+    simp only [Bool.false_eq_true, if_false]; omega
+
+open OtelVerif.C03 in
+/-- **The clause as written, memory queue** (repaired code): sent + send-failed + enqueue-failed = given, for every schedule and
+refusal pattern, provided no `wait_for_result` request saw an export error (the open finding). -/
+theorem C19_exporter_three_counter_memory {x : XState} (h : XReachable x) (hp : x.s.phase = 5)
+    (hm : x.s.cfg.persistent = false) (hn : x.s.cons ≠ []) (hw : enqFailedWfrOf x.s = 0) :
+    sentOf x.s + failedOf x.s + enqFailedOf x = x.given := by
+  obtain ⟨hr, hg⟩ := xreachable_inv h
+  have := C19_exporter_balance_memory_full_holds x.s hr hp hm hn
+  simp only [enqFailedOf]; omega
+
+/-- non-vacuity: queue-full refusals around an export -/
+example :
+    let x0 : XState := { s := OtelVerif.C03.init { persistent := false, batching := false, retry := false } 1 0 false }
+    ((xfire x0 (.lts (.offer [1, 2]))).bind (fun x => xfire x (.refuse [3, 4, 5]))).map (fun x => (x.given, x.refused, x.s.accepted.length)) =
+      some (5, 3, 2) := by decide
 
 end OtelVerif.C19
